@@ -145,6 +145,14 @@ def run(F, R, tier):
                 # the pushed value is the popped event
                 po = B.origins(B.blocks[push[0]]["term"]["args"][1])
                 okc = okc and po and all(o[0] == "call" and q.ends(o[1], "Vec::pop") for o in po)
+            # the emptiness test looks at the batch WITHOUT the overflowing event: remove_last_event() lies on every path from the
+            # overflow edge to the event_count() call (otherwise an event that overflows alone is put back for ever)
+            cntc = [c[0] for c in B.calls_named("TelemetryData::event_count") if c[0] in B.reach([tr[1]])]
+            oko = bool(cntc) and B.path([tr[1]], cntc, cut_blocks=rem) is None
+            R.check(oko, "C18.R3", "C18.R3:%s:remove-before-emptiness-test" % se["id"], q.where(B, rem[0]),
+                    "on the overflow edge remove_last_event() precedes the event_count() == 0 test",
+                    "the batch is tested for emptiness while it still holds the overflowing event: an event too large for any batch is never "
+                    "dropped, it is put back and retried for ever")
             R.check(okc, "C18.R3", "C18.R3:%s:put-back-or-drop" % se["id"], "-",
                     "the overflowing event is pushed back only when the batch is non-empty (event_count() != 0) and dropped when it alone overflows")
         else:
